@@ -202,8 +202,11 @@ class Interp:
         if tok.startswith("@"):
             return ("global", tok)
         if tok.startswith("getelementptr"):
-            m = re.search(r"@([\w.]+), i32 0, i32 (\d+)\)", tok)
+            m = re.search(r"@([\w.]+), i32 0, i32 (\d+)((?:, i(?:32|64) \d+)*)\)", tok)
             if m:
+                if m.group(3):
+                    # an element of an array field of a global (the logger's per-level function table)
+                    return ("globalfield", m.group(1), (int(m.group(2)),) + tuple(int(x) for x in re.findall(r"\d+", m.group(3).replace("i32", "").replace("i64", ""))))
                 return ("globalfield", m.group(1), int(m.group(2)))
         raise AnalysisBroken("absint: unmodelled operand '%s'" % tok)
 
